@@ -54,7 +54,21 @@ CFGS = {
                PullRetry=1, PullAuto=-1, PullEnabled=True, Hook=False),
     "L2": dict(RtmpPubs=["p1"], RtspPubs=[], CustPubs=["k1"], PsPubs=["g1"], RtmpSubs=[], FlvSubs=["f1"],
                PullRetry=0, PullAuto=-1, PullEnabled=False),
+    # HLS subscribers (hls.sub_session_hash_key set): sessions opened by the first playlist request, kept alive by requests with
+    # their session_id, ended by the handler's sweep after the timeout or a kick.  H0: whole graph replayed; H1: next to RTMP /
+    # HTTP-FLV subscribers and two publishers; H2: the HLS session as the consumer a relay pull with auto-stop depends on
+    "H0": dict(RtmpPubs=["p1"], RtspPubs=[], CustPubs=[], PsPubs=[], RtmpSubs=[], FlvSubs=[], HlsSubs=["h1"], Linger=True,
+               PullRetry=0, PullAuto=-1, PullEnabled=False),
+    "H1": dict(RtmpPubs=["p1", "p2"], RtspPubs=[], CustPubs=[], PsPubs=[], RtmpSubs=["s1"], FlvSubs=["f1"], HlsSubs=["h1", "h2"],
+               PullRetry=0, PullAuto=-1, PullEnabled=False),
+    "H2": dict(RtmpPubs=["p1"], RtspPubs=[], CustPubs=[], PsPubs=[], RtmpSubs=[], FlvSubs=[], HlsSubs=["h1"],
+               PullRetry=1, PullAuto=0, PullEnabled=True, Hook=False),
 }
+# relay pull from an RTSP origin (rtsp.PullSession over TCP instead of rtmp.PullSession): the model's pull machine is
+# protocol-agnostic, so every pull configuration has a twin whose driver uses an rtsp:// URL and the RTSP origin stub
+for _cid, _rid in (("P0", "R0"), ("P1", "R1"), ("P2", "R2"), ("P3", "R3"), ("P4", "R4"), ("P5", "R5"), ("F2", "F3")):
+    CFGS[_rid] = dict(CFGS[_cid], PullRtsp=True)
+HLS_SETS = {("h1",): "Hls1", ("h1", "h2"): "Hls2"}      # defined in spec/Lifecycle.tla
 
 
 def num(n):
@@ -67,6 +81,12 @@ def write_cfg(cid, mode, max_tick, max_att):
     for k in ("RtmpPubs", "RtspPubs", "CustPubs", "PsPubs", "RtmpSubs", "FlvSubs"):
         lines.append("  %s = %s" % (k, tla_set(c[k])))
     lines.append("  TsSubs = %s" % tla_set(c.get("TsSubs", [])))
+    if c.get("HlsSubs"):
+        lines.append("  HlsSubs <- %s" % HLS_SETS[tuple(c["HlsSubs"])])
+    if c.get("PullRtsp"):
+        lines.append("  PullHdrMsgs <- PullHdrRtsp")
+    if c.get("Linger"):
+        lines.append("  HlsLingerOn <- Yes")
     for k in ("PullRetry", "PullAuto"):
         lines.append("  %s %s" % (k, ("<- Neg1" if c[k] == -1 else "= %d" % c[k])))
     lines.append("  PullEnabled = %s" % ("TRUE" if c["PullEnabled"] else "FALSE"))
@@ -106,7 +126,7 @@ def drv_cfg(cid):
             "pullAutoMs": (-1 if c["PullAuto"] < 0 else c["PullAuto"] * 700), "hook": c.get("Hook", True), "outputs": c.get("Outputs", False), "leak": 0,
             "pushTargets": c.get("Push", []), "paramLen": c.get("ParamLen", 0), "wirePubs": c.get("WirePubs", []),
             "tsSubs": c.get("TsSubs", []), "httpNotify": c.get("HttpNotify", False),
-            "rtspWire": c.get("MaxSweep", 0) > 0}
+            "rtspWire": c.get("MaxSweep", 0) > 0, "hlsSubs": c.get("HlsSubs", []), "pullRtsp": c.get("PullRtsp", False)}
 
 
 def signature(r):
@@ -202,4 +222,9 @@ def run_lifecycle(ctx, bfs, emit, sim, leak=None):
                  {"scenario": scen[r["sc"]] if r["sc"] is not None and r["sc"] < len(scen) else None, "trace": r["trace"]})
     ctx.assumptions += ["sessions are real lal session objects on in-memory connections handed to the real ServerManager "
                         "callbacks (the network servers' accept loops are not part of the scenario)",
-                        "Tick is driven through the verif hook VerifTick, a copy of the loop body of RunLoop"]
+                        "Tick is driven through the verif hook VerifTick, a copy of the loop body of RunLoop",
+                        "HLS sessions: the time-out (400 ms) and the handler's once-per-second sweep are real time; a client "
+                        "that keeps asking is realised by background requests, and a scenario in which one came late is "
+                        "dropped as inconclusive",
+                        "an RTSP origin is a wire-level stub (pull over TCP); nothing is interleaved between its DESCRIBE and "
+                        "PLAY answers, except that every third scenario leaves the set-up unfinished after the description"]
